@@ -37,7 +37,8 @@ PROPS = {
     "C04": dict(
         families=[("chunk", 2500, 80000)],
         projection="vte action stream (Vte.advance) and screen + event log under different chunkings",
-        theorems=[],
+        theorems=["C04_main", "C04_reachable_pwf", "C04_pwf_step", "C04_vte_app", "C04_vte_bug_exact",
+                  "C04_write", "C04_flush", "C04_refuted"],
     ),
     "C05": dict(
         families=[("csi", 1500, 40000), ("stream", 800, 20000)],
